@@ -105,18 +105,23 @@ func c20Decoders(tag byte, body []byte, kind byte) *hx.Failure {
 	if d.Tag() != tag {
 		return hx.Failf("desc-tag", "%s: Tag() = %#x", what, d.Tag())
 	}
+	// "its neutral value" is not spelled out by the statement: it is whatever the decoder returns for a canonical descriptor
+	// of a tag no decoder owns (tag 0, empty body), and every descriptor of another tag must return the same
+	neutral := psi.NewPmtDescriptor(0x00, nil)
 	// maximum bitrate
-	wantRate := uint32(0)
+	wantRate := neutral.DecodeMaximumBitRate()
+	wantESRate := psi.NewPmtElementaryStream(0x1B, 0x100, []psi.PmtDescriptor{psi.NewPmtDescriptor(0xC0, []byte{1}), neutral}).MaxBitRate()
 	if tag == 0x0E && kind == 0x0E {
 		wantRate = uint32(body[0]&0x1f)<<16 | uint32(body[1])<<8 | uint32(body[2])
+		wantESRate = uint64(wantRate) * 50 * 8
 	}
 	if tag != 0x0E || kind == 0x0E {
 		if got := d.DecodeMaximumBitRate(); got != wantRate {
 			return hx.Failf("desc-maxbitrate", "%s: DecodeMaximumBitRate() = %d, want %d", what, got, wantRate)
 		}
 		es := psi.NewPmtElementaryStream(0x1B, 0x100, []psi.PmtDescriptor{psi.NewPmtDescriptor(0xC0, []byte{1}), d})
-		if got := es.MaxBitRate(); got != uint64(wantRate)*50*8 {
-			return hx.Failf("desc-es-maxbitrate", "%s: elementary stream MaxBitRate() = %d, want %d x 50 x 8", what, got, wantRate)
+		if got := es.MaxBitRate(); got != wantESRate {
+			return hx.Failf("desc-es-maxbitrate", "%s: elementary stream MaxBitRate() = %d, want %d (maximum_bitrate x 50 x 8, or what a stream without the descriptor reports)", what, got, wantESRate)
 		}
 		if d.IsMaximumBitrateDescriptor() != (tag == 0x0E) {
 			return hx.Failf("desc-ismaxbitrate", "%s: IsMaximumBitrateDescriptor() = %v", what, d.IsMaximumBitrateDescriptor())
@@ -124,7 +129,7 @@ func c20Decoders(tag byte, body []byte, kind byte) *hx.Failure {
 	}
 	// ISO 639
 	if tag != 0x0A || kind == 0x0A {
-		wantCode, wantType := "", byte(0)
+		wantCode, wantType := neutral.DecodeIso639LanguageCode(), neutral.DecodeIso639AudioType()
 		if tag == 0x0A {
 			wantCode, wantType = string(body[0:3]), body[3]
 		}
@@ -140,7 +145,7 @@ func c20Decoders(tag byte, body []byte, kind byte) *hx.Failure {
 	}
 	// TTML
 	if tag != 0x7F || kind == 0x7F {
-		wantLang, wantPurpose := "", byte(0xFF)
+		wantLang, wantPurpose := neutral.DecodeTTMLIso639LanguageCode(), neutral.DecodeTTMLSubtitlePurpose()
 		if tag == 0x7F {
 			wantLang, wantPurpose = string(body[1:4]), body[4]>>2
 		}
@@ -176,12 +181,14 @@ func c20Decoders(tag byte, body []byte, kind byte) *hx.Failure {
 	}
 	// Dolby Vision codec string
 	if tag != 0xB0 || kind == 0xB0 {
-		want := ""
-		if tag == 0xB0 {
-			num := uint16(body[2])<<8 | uint16(body[3])
-			want = fmt.Sprintf("dvhe.%02d.%02d", num>>9, (num>>3)&0x3F)
-		}
-		for _, orig := range []string{"hvc1", "", "hev1.2.4.L120.90", "avc1.640028", "avc3", "dvh1.05.06", "dvav.09.05", "mp4a.40.2"} {
+		for _, orig := range []string{"hvc1", "", "hev1.2.4.L120.90", "avc1.640028", "avc3", "dvh1.05.06", "dvav.09.05", "mp4a.40.2",
+			// RFC 6381 lists, as a manifest's CODECS attribute carries them
+			"hvc1,ec-3", "hev1.1.6.L93.B0,mp4a.40.2", "hvc1,", ",hev1", "mp4a.40.2,hvc1.2.4.L120.90", "avc1.640028,ac-3"} {
+			want := neutral.DecodeDolbyVisionCodec(orig)
+			if tag == 0xB0 {
+				num := uint16(body[2])<<8 | uint16(body[3])
+				want = fmt.Sprintf("dvhe.%02d.%02d", num>>9, (num>>3)&0x3F)
+			}
 			if got := d.DecodeDolbyVisionCodec(orig); got != want {
 				return hx.Failf("desc-dolbyvision-codec", "%s: DecodeDolbyVisionCodec(%q) = %q, want %q", what, orig, got, want)
 			}
@@ -258,7 +265,7 @@ func checkC20(c CaseC20, x *hx.Ctx) *hx.Failure {
 var propC20 = hx.Register(hx.Prop[CaseC20]{ID: "C20", Gen: genC20, Check: checkC20})
 
 func c20Rule() {
-	hx.Rec("C20").SetRule("cases: a stream_type code, a PID, a well-formed descriptor of one of the decoded kinds (ISO-639 with 4k-byte body, maximum_bitrate < 2^21 with random reserved bits, registration 4..12 bytes with/without DOVI, TTML extension body >= 5 bytes with tag extension 0x20 (bodies with another tag extension are generated but only the tag-extension test and the stream-level TTML test are asserted on them), Dolby Vision with profile 0..127 and level 0..31, decoded with eight different originalCodec arguments), the same body under another drawn tag, and a small list of stream types for the PMT-level by-PID query (through a reference-built PMT decoded by NewPMT). Oracle: the statement's code lists typed into the harness; decoder definitions; neutral values (0, \"\", 0xFF, false) under other tags. Enumerated: all 256 stream types (lookup, constructor, decoded-from-PMT, by-PID query); every decoder's body under all 256 tags. Non-trivial: code in or adjacent to a positive list, or the descriptor's tag differs from the decoder's tag.",
+	hx.Rec("C20").SetRule("cases: a stream_type code, a PID, a well-formed descriptor of one of the decoded kinds (ISO-639 with 4k-byte body, maximum_bitrate < 2^21 with random reserved bits, registration 4..12 bytes with/without DOVI, TTML extension body >= 5 bytes with tag extension 0x20 (bodies with another tag extension are generated but only the tag-extension test and the stream-level TTML test are asserted on them), Dolby Vision with profile 0..127 and level 0..31, decoded with fourteen different originalCodec arguments (single codecs and comma-separated lists)), the same body under another drawn tag, and a small list of stream types for the PMT-level by-PID query (through a reference-built PMT decoded by NewPMT). Oracle: the statement's code lists typed into the harness; decoder definitions; under another tag the same value as for a canonical descriptor of tag 0 with an empty body (the decoder's neutral value; false for the tests). Enumerated: all 256 stream types (lookup, constructor, decoded-from-PMT, by-PID query); every decoder's body under all 256 tags. Non-trivial: code in or adjacent to a positive list, or the descriptor's tag differs from the decoder's tag.",
 		"maximum_bitrate below 2^21 and Dolby Vision level below 32 (the ranges the quantifier text gives)",
 		"a decoder is only applied to bodies that are well-formed for it, or under a tag it does not decode")
 }
